@@ -112,8 +112,9 @@ except OSError:
     det = ''
     eng = [n for n in walk_no_nested(f.node) if isinstance(n, ast.Assign) and isinstance(n.value, ast.Call) and unparse(n.value.func) == 'self.theC.calculateLikelihoodAndDerivatives'
            and isinstance(n.targets[0], ast.Tuple) and all(isinstance(e, ast.Name) for e in n.targets[0].elts)]
-    if len(guard) == 1 and len(eng) == 1:
+    if len(eng) == 1:
         F, G = eng[0].targets[0].elts[0].id, eng[0].targets[0].elts[1].id
+    if len(guard) == 1 and len(eng) == 1:
         det = unparse(guard[0])[:200].replace(F, 'f')
         b = find(f.node, f"""
 _GN = np.linalg.norm({G})
@@ -133,16 +134,25 @@ elif self.save_iterations:
             writes_inside = len(best) == 1 and all(id(c) in inside for c in rep + mk)
             ok = writes_inside and not best[0].orelse and len(guard[0].body) == 2
     unguarded = None
-    if not ok and len(guard) == 1:
-        # the file is written although the derivatives are not finite: the saving branch is not the alternative of the finiteness test
-        fin = [n for n in walk_no_nested(f.node) if isinstance(n, ast.If) and 'np.isfinite' in unparse(inline_locals(f.node, n.test)) and isinstance(inline_locals(f.node, n.test), ast.UnaryOp)]
-        if len(fin) == 1 and not any(x is guard[0] for st_ in fin[0].orelse for x in ast.walk(st_)) and not any(x is guard[0] for x in ast.walk(fin[0])):
-            unguarded = 'the iteration is saved whether or not the derivatives are finite (the saving branch is not the alternative of the finiteness test): a point with NaN / infinite derivatives can become the restart point'
-    if not ok and unguarded is None and len(guard) == 1:
-        # the alternative of a NaN test only: infinite derivatives pass
-        nan_only = [n for n in walk_no_nested(f.node) if isinstance(n, ast.If) and re.fullmatch(r'np\.isnan\(.*\)', unparse(inline_locals(f.node, n.test))) and any(x is guard[0] for st_ in n.orelse for x in ast.walk(st_))]
-        if nan_only:
-            unguarded = f'the iteration is saved whenever `{unparse(nan_only[0].test)}` is false: a gradient with an infinite entry is not NaN, so a point with infinite derivatives can become the restart point (the test must be np.isfinite)'
+    writes = rep + direct
+    if not ok and len(eng) == 1 and writes:
+        # path facts instead of shape: with a gradient that has a NaN entry (scenario 'nan') or an infinite entry ('inf'), every
+        # test on the finiteness of the gradient has a known outcome; the sides it excludes are cut from the control-flow graph.
+        # A write still reachable is a write with non-finite derivatives; a test involving the gradient that cannot be
+        # evaluated leaves the verdict open.
+        reach = {sc: _reachable_nonfinite(f.node, cfg, G, sc, writes) for sc in ('nan', 'inf')}
+        if None not in reach.values():
+            if reach['nan'] and reach['inf']:
+                unguarded = ('the iteration is saved whether or not the derivatives are finite (there is a path to the replacement of the iteration file on which no test '
+                             'has excluded a non-finite gradient): a point with NaN / infinite derivatives can become the restart point')
+            elif reach['inf']:
+                unguarded = ('the iteration is saved when the gradient has an infinite entry: only NaN is tested, and an infinite entry is not NaN, so a point with infinite '
+                             'derivatives can become the restart point (the test must be np.isfinite)')
+            elif reach['nan']:
+                unguarded = ('the iteration is saved when the gradient has a NaN entry: only infinity is tested, so a point with NaN derivatives can become the restart point '
+                             '(the test must be np.isfinite)')
+            elif len(guard) <= 1 and _best_so_far(f.node, cfg, F, writes):
+                ok = True
     ctx.add('C15.R3', 'iter-writer:best-so-far', ok if (ok or unguarded) else None, (f.file, guard[0].lineno if guard else f.line),
             'written only with finite derivatives and f >= bestIteration; the marker is raised to f on every write' if ok else (unguarded or 'the best-so-far discipline of the iteration file is not in the expected form (guard, marker update, finite-derivative test)'), det, positive=bool(unguarded))
     e = B.methods['estimate']
@@ -180,6 +190,169 @@ elif self.save_iterations:
             ctx.add('C15.R5', 'change_init_values:vector', o.ok if o.recognised else None, (o.file, o.line),
                     'every loaded value (also 0.0) is copied, by name, into the vector the optimiser starts from' if o.ok else 'the loaded values do not all reach the vector the optimiser starts from: ' + o.message, o.detail,
                     positive=o.recognised and not o.ok)
+
+
+_FINITE_FUNCS = {'isfinite': 'fin', 'isnan': 'nan', 'isinf': 'inf'}
+
+
+def _derived_names(func: ast.AST, G: str) -> set[str]:
+    """locals whose value depends on the gradient G (fixpoint over the assignments of the function)"""
+    out = {G}
+    changed = True
+    while changed:
+        changed = False
+        for n in walk_no_nested(func):
+            val, tg = None, []
+            if isinstance(n, ast.Assign):
+                val, tg = n.value, n.targets
+            elif isinstance(n, (ast.AnnAssign, ast.AugAssign)) and n.value is not None:
+                val, tg = n.value, [n.target]
+            elif isinstance(n, ast.NamedExpr):
+                val, tg = n.value, [n.target]
+            if val is None or not any(isinstance(x, ast.Name) and x.id in out for x in ast.walk(val)):
+                continue
+            if isinstance(n, ast.Assign) and isinstance(n.value, ast.Call) and unparse(n.value.func) == 'self.theC.calculateLikelihoodAndDerivatives':
+                continue  # the engine call receives the buffer g; its other results (f, h, bh) are not functions of the gradient
+            for t in tg:
+                for x in ast.walk(t):
+                    if isinstance(x, ast.Name) and x.id not in out:
+                        out.add(x.id)
+                        changed = True
+    return out
+
+
+def _truth(e: ast.expr, names: set[str], scenario: str, open_: list) -> bool | None:
+    """value of a test when the gradient has a NaN entry and no infinite one (scenario 'nan') or an infinite entry and no NaN
+    ('inf'); None = not determined by that fact.  A sub-expression that involves the gradient and is not understood is
+    appended to open_."""
+    def about_gradient(x) -> bool:
+        return any(isinstance(y, ast.Name) and y.id in names for y in ast.walk(x))
+
+    def unknown(x):
+        if about_gradient(x):
+            open_.append(x)
+        return None
+
+    if isinstance(e, ast.Constant):
+        return bool(e.value)
+    if isinstance(e, ast.UnaryOp) and isinstance(e.op, ast.Not):
+        v = _truth(e.operand, names, scenario, open_)
+        return None if v is None else not v
+    if isinstance(e, ast.BoolOp):
+        vals = [_truth(v, names, scenario, open_) for v in e.values]
+        absorbing = isinstance(e.op, ast.Or)
+        if any(v is absorbing for v in vals):
+            return absorbing
+        return (not absorbing) if all(v is (not absorbing) for v in vals) else None
+    if isinstance(e, ast.Compare) and len(e.ops) == 1:
+        left, right, op = e.left, e.comparators[0], e.ops[0]
+        if isinstance(op, (ast.NotEq, ast.Eq)) and unparse(left) == unparse(right) and about_gradient(left):
+            isnan = scenario == 'nan'  # x != x is the NaN test
+            return isnan if isinstance(op, ast.NotEq) else not isnan
+        for a, b in ((left, right), (right, left)):
+            if isinstance(b, ast.Constant) and isinstance(b.value, bool) and isinstance(op, (ast.Eq, ast.NotEq, ast.Is, ast.IsNot)):
+                v = _truth(a, names, scenario, open_)
+                if v is None:
+                    return None
+                return (v == b.value) if isinstance(op, (ast.Eq, ast.Is)) else (v != b.value)
+        return unknown(e)
+    if isinstance(e, ast.Call):
+        # reductions / conversions around the elementwise test
+        red, inner = None, e
+        while isinstance(inner, ast.Call):
+            fn_ = dotted(inner.func) or ''
+            last = inner.func.attr if isinstance(inner.func, ast.Attribute) else fn_
+            if isinstance(inner.func, ast.Attribute) and last in ('all', 'any') and not inner.args and isinstance(inner.func.value, ast.Call):
+                red, inner = red or last, inner.func.value
+            elif last in ('all', 'any') and fn_ in ('all', 'any', 'np.all', 'np.any', 'numpy.all', 'numpy.any') and len(inner.args) == 1 and not inner.keywords:
+                red, inner = red or last, inner.args[0]
+            elif fn_ == 'bool' and len(inner.args) == 1:
+                inner = inner.args[0]
+            else:
+                break
+        if isinstance(inner, ast.Call):
+            fn_ = dotted(inner.func) or ''
+            kind = _FINITE_FUNCS.get(fn_.split('.')[-1]) if fn_.split('.')[0] in ('np', 'numpy', 'math', 'isfinite', 'isnan', 'isinf') else None
+            if kind and len(inner.args) == 1 and not inner.keywords:
+                if not about_gradient(inner.args[0]):
+                    return None  # finiteness of something else: does not depend on the scenario
+                if kind == 'fin':
+                    return False if red in (None, 'all') else unknown(e)
+                if kind == scenario:
+                    return True if red in (None, 'any') else unknown(e)
+                return False
+        return unknown(e)
+    return unknown(e)
+
+
+def _reachable_nonfinite(func: ast.AST, cfg, G: str, scenario: str, writes: list) -> bool | None:
+    """is one of the writes reachable from the entry when the gradient is not finite (scenario 'nan' / 'inf')?  None = cannot tell"""
+    import networkx as nx
+
+    from ..cfg import ENTRY
+
+    names = _derived_names(func, G)
+    h = cfg.g.copy()
+    for n in cfg.nodes():
+        st = cfg.stmt[n]
+        if isinstance(st, (ast.If, ast.While, ast.Assert)):
+            open_: list = []
+            v = _truth(inline_locals(func, st.test), names | {G}, scenario, open_)
+            if v is None and open_:
+                return None
+            if v is None:
+                continue
+            if isinstance(st, ast.Assert):
+                if v is False:
+                    h.remove_edges_from(list(h.out_edges(n)))
+                continue
+            inside = {id(x) for s_ in st.body for x in ast.walk(s_)}
+            for s_ in list(h.successors(n)):
+                on_true = id(cfg.stmt[s_]) in inside
+                if on_true != v:
+                    h.remove_edge(n, s_)
+        else:
+            # a conditional expression / short-circuit statement deciding on the gradient outside a test is not followed
+            own = [x for x in ast.walk(st) if isinstance(x, ast.IfExp)] if isinstance(st, ast.AST) and not isinstance(st, (ast.For, ast.With, ast.Try, ast.FunctionDef, ast.ClassDef)) else []
+            for x in own:
+                open_ = []
+                if _truth(inline_locals(func, x.test), names | {G}, scenario, open_) is not None or open_:
+                    return None
+    ws = {cfg.node_of(w) for w in writes}
+    if None in ws:
+        return None
+    return any(w in h and nx.has_path(h, ENTRY, w) for w in ws)
+
+
+def _best_so_far(func: ast.AST, cfg, F: str, writes: list) -> bool:
+    """every write sits in the true branch of a test with the conjuncts self.save_iterations and F >= self.bestIteration (on one
+    test or on nested ones), that branch first raises the marker to F; the only other assignment of the marker is its
+    initialisation to F when it is None"""
+    def conjuncts(t):
+        t = inline_locals(func, t)
+        return [unparse(v) for v in t.values] if isinstance(t, ast.BoolOp) and isinstance(t.op, ast.And) else [unparse(t)]
+
+    ifs = [n for n in walk_no_nested(func) if isinstance(n, ast.If)]
+    marks = [n for n in walk_no_nested(func) if isinstance(n, (ast.Assign, ast.AugAssign, ast.AnnAssign)) and any(unparse(t) == 'self.bestIteration' for t in (n.targets if isinstance(n, ast.Assign) else [n.target]))]
+    if any(not isinstance(m, ast.Assign) or len(m.targets) != 1 or unparse(m.value) != F for m in marks):
+        return False
+    raised = []
+    for w in writes:
+        enclosing = [i for i in ifs if any(x is w for s_ in i.body for x in ast.walk(s_))]
+        cj = [c for i in enclosing for c in conjuncts(i.test)]
+        best = [i for i in enclosing if any(c in (f'{F} >= self.bestIteration', f'self.bestIteration <= {F}') for c in conjuncts(i.test))]
+        if 'self.save_iterations' not in cj or len(best) != 1:
+            return False
+        up = [m for m in marks if m in best[0].body]
+        if len(up) != 1 or not cfg.dominates(cfg.node_of(up[0]), cfg.node_of(w)):
+            return False
+        raised.append(up[0])
+    rest = [m for m in marks if not any(m is r for r in raised)]
+    for m in rest:
+        init = [i for i in ifs if i.body == [m] and not i.orelse and 'self.bestIteration is None' in conjuncts(i.test)]
+        if len(init) != 1 or not all(cfg.dominates(cfg.node_of(init[0]), cfg.node_of(w)) for w in writes):
+            return False
+    return len(rest) == 1
 
 
 def _is_alias(f, name: str, target: str) -> bool:
